@@ -46,6 +46,11 @@ func vpH_C22_expand() {
 	if black != "" {
 		cfg.Parse.BlacklistDirs = []string{black}
 	}
+	// an experimental directory is a path from the repository root, not a name
+	exp := vpNondetStringFrom("experimental-dir", vpBound("namelen"), "aou")
+	if exp != "" {
+		cfg.Parse.ExperimentalDir = []string{exp}
+	}
 	got := map[string]bool{}
 	for name := range FindAllBuildFiles(cfg, "", "") {
 		got[name] = true
@@ -57,7 +62,7 @@ func vpH_C22_expand() {
 				return true
 			}
 		}
-		return false
+		return exp != "" && (p == exp || strings.HasPrefix(p, exp+"/"))
 	}
 	vpAssert("root-package-found", got["BUILD"])
 	for i, p := range paths {
